@@ -20,5 +20,8 @@ func TestVerif(t *testing.T) {
 		t.Fatalf("unknown suite %q", e.Prop)
 	}
 	r(e)
+	if GhostRuns > 0 {
+		e.Stats.Distribution["ghost-executions-on-discarded-branches"] = GhostRuns
+	}
 	e.Finish()
 }
